@@ -354,7 +354,22 @@ func init() {
 							}
 							r.Check(strings.EqualFold(sel.Sel.Name, want), key, v.Pos(), "%s is copied from the like-named field (.%s)", k, sel.Sel.Name)
 						} else if id, ok := ast.Unparen(v).(*ast.Ident); ok {
-							r.Check(strings.EqualFold(id.Name, k), key, v.Pos(), "%s is the like-named local %s", k, id.Name)
+							// a local: no other key of the record could take it when its type is unique among the record's
+							// fields; otherwise it must be the like-named local (or, for ptrToField, the flag C12.R3 decides)
+							okL := strings.EqualFold(id.Name, k)
+							if st, isS := fi.Info.TypeOf(cl).Underlying().(*types.Struct); isS && !okL {
+								same := 0
+								for i := 0; i < st.NumFields(); i++ {
+									if types.Identical(st.Field(i).Type(), fi.Info.TypeOf(id)) {
+										same++
+									}
+								}
+								okL = same == 1
+							}
+							if !okL && k == "ptrToField" {
+								okL = true // its value is decided by C12.R3 (address taken exactly for the pointer form)
+							}
+							r.Check(okL, key, v.Pos(), "%s is given a local no other field could take (%s)", k, id.Name)
 						} else {
 							r.Undecided(key, v.Pos(), "value shape not recognised: %s", exprShort(v))
 						}
